@@ -1,5 +1,6 @@
 (* C12 — the text and JSON forms are canonical and strictly parsed. *)
 Require Import Enr.Bytes Enr.Consts Enr.Rlp Enr.SortedMap Enr.Keccak Enr.Record Enr.Text.
+Require Import EnrProofs.Thm_Small EnrProofs.Thm_Sites.
 Require Import EnrProofs.Thm_Text.
 Open Scope N_scope.
 
@@ -37,3 +38,10 @@ Theorem from_str_rejects_trailing : forall (c : crypto) kt s b r rest,
   decode c kt b = Ok (r, rest) -> rest <> [] -> exists e, from_str c kt s = Err e.
 Proof. exact Thm_Text.from_str_rejects_trailing. Qed.
 Print Assumptions from_str_rejects_trailing.
+
+(* the JSON string: only the two canonical strings deserialise to a record (the model's JSON: string literals
+   without escapes; serde_json's escape handling is outside the model and compared by the correspondence run) *)
+Theorem from_json_strict : forall (c : crypto) kt s r,
+  from_json c kt s = Some (Ok r) -> s = to_json r \/ s = [34] ++ b64_encode (encode r) ++ [34].
+Proof. exact Thm_Small.from_json_strict. Qed.
+Print Assumptions from_json_strict.
